@@ -144,6 +144,27 @@ CLAIMS["C02"] = (
     "DESIGN.md section 5 C02",
 )
 
+CLAIMS["C03"] = (
+    "typestate extraction (dispatch arms + every state write) compared with the specified automaton; must-dataflow for readiness ordering; loop-iteration pairing; truth table of the hello guards; constant/role extraction of the protocol setup",
+    "Decides statically: the Noise helper's extracted automaton equals HELLO->HANDSHAKE->READY with CLOSED only in close(), READY only after "
+    "read_message returned (R1); delivery only through the READY arm, readiness signalled only on the HANDSHAKE->READY path after both "
+    "ciphers exist, handshake-complete only after the readiness wait returned (R2); per-iteration pairing and sentinel discipline of the "
+    "receive loop (R3); bad-name iff name announced, expected set and different (carrying the received name), HANDSHAKE iff hello non-empty, "
+    "protocol byte 0x01 and name acceptable (R4); pattern name, initiator role, PSK, prologue, hello bytes, first-frame layout and setup "
+    "order (R5). That the handshake succeeds against a conformant responder for all keys and chunkings (cryptography, runtime) is not decided.",
+    "DESIGN.md section 5 C03",
+)
+CLAIMS["C04"] = (
+    "guard-located deviation-site table (error class per site), fail-closed path walks from every detection site, must-dataflow for report/close order, nonce ordering analysis",
+    "Decides statically: each of the 13 deviation sites, located by its guard, constructs the specified error class (bad name carrying the "
+    "received name, MAC failure vs other handshake error, InvalidTag and reset-in-HELLO mappings keeping their cause, plaintext 0x01 vs other, "
+    "key not base64 / not 32 bytes) (R1); from every detection site the handler leaves without state change, readiness, further reads or "
+    "delivery, errors are reported before the close and to both the readiness wait and the connection, authentication failures are never "
+    "swallowed, frames after close are never delivered (R2); the key is validated in __init__ before any write (R3); the decrypt nonce "
+    "advances only after success (R4). 'Delivered messages are a byte-exact prefix' rests on AEAD authenticity and is not decided.",
+    "DESIGN.md section 5 C04",
+)
+
 UNDER_CONSTRUCTION = "rule set not built yet in this round (see DESIGN.md section 5 for the planned static rules)"
 
 NOT_APPLICABLE = {}
